@@ -25,11 +25,11 @@ ASSUMPTIONS = ["inputs are WFstd tensors with every mode size >= 3",
                "their per-mode use is checked",
                "partialset masks are 0/1 tensors of shape [2]^N (as produced by tn.symbols and the logic operators)"]
 
-KINDS = {"partial": 420, "linear": 60, "const": 60, "affine": 70, "gradient": 100, "divergence": 70, "curl": 50, "laplacian": 70,
-         "partialset": 110}
+KINDS = {"partial": 800, "linear": 120, "const": 120, "affine": 140, "gradient": 200, "divergence": 140, "curl": 100, "laplacian": 140,
+         "partialset": 220}
 
 
-RAISE, VALUE = {"raise"}, {"value", "law"}
+RAISE, VALUE, STEP = {"raise"}, {"value", "law"}, {"step"}
 
 # convention for the step of the k-th repeated forward difference in partialset:
 #   "grid"   : every difference along mode n is divided by the grid step h_n = (b1-b0)/(I_n-1)  (docstring: default steps are 1)
@@ -200,10 +200,12 @@ def stencil(x, d, order, h, periodic):
     return x
 
 
-def partial_expected(x, dims, order, bounds, periodic):
-    """bounds: None | pair | list of pairs aligned with dims; periodic: bool | list aligned with dims"""
+def partial_expected(x, dims, order, bounds, periodic, conv="own"):
+    """bounds: None | pair | list of pairs aligned with dims; periodic: bool | list aligned with dims.
+    conv="own": default bounds of mode d are [0, I_d] (the property); conv="source": what derivatives.py:88-96 does with default
+    bounds, i.e. the i-th entry of the dim list takes the extent of mode i (used only to recognise that defect in a mismatch)"""
     if bounds is None:
-        bl = [[0, x.shape[d]] for d in dims]
+        bl = [[0, x.shape[d if conv == "own" else i]] for i, d in enumerate(dims)]
     elif not isinstance(bounds[0], list):
         bl = [bounds]
     else:
@@ -221,7 +223,11 @@ def bare_cp(t, dims):
     return any(t.cores[d].ndim == 2 and t.Us[d] is None for d in dims)
 
 
-def tensor_verify(exp, floor):
+STEP_NOTE = " — the result equals the stencil divided by the step of ANOTHER mode (default bounds indexed by position, not by mode)"
+
+
+def tensor_verify(exp, floor, exp_src=None):
+    """exp_src: what the source's mis-indexed default step would give; a result equal to it is reported with kind 'step'"""
     def verify(r):
         if not isinstance(r, tn.Tensor):
             return "shape: returned %s, not a Tensor" % type(r).__name__
@@ -229,15 +235,20 @@ def tensor_verify(exp, floor):
             return "shape %s, expected %s" % (tuple(r.shape), tuple(exp.shape))
         g = to_np(r)
         m = cmp(g, exp, 1e-9, floor)
-        if m is not None and g.shape == exp.shape and np.all(np.isfinite(g)):
-            # diagnostic: is the result the oracle times one constant (a wrong step)?
-            den = float(np.sum(exp * exp))
-            if den > 0:
-                ratio = float(np.sum(g * exp)) / den
-                if cmp(g, ratio * exp, 1e-9, floor) is None:
-                    m += " — result = %.6g x oracle (a different step was used)" % ratio
+        if m is not None and exp_src is not None and cmp(g, exp_src, 1e-9, floor) is None:
+            return "<<step>> " + m + STEP_NOTE
         return m
     return verify
+
+
+def _kinded(m, prefix):
+    """prepend a component label to a verifier message, keeping its kind marker in front"""
+    if m.startswith("<<"):
+        k = m.index(">>") + 2
+        return m[:k] + " " + prefix + m[k:].strip()
+    if m.startswith("shape"):
+        return "shape: " + prefix + m
+    return prefix + m
 
 
 # ----------------------------------------------------------------------------------------------- run
@@ -265,7 +276,7 @@ def _partial_feats(t, dims, bounds):
     shape = t.shape
     return [("a differentiated mode is a CP core without Tucker factor", bare_cp(t, dims), RAISE),
             ("default bounds and a mode d at position i of the dim list with shape[d] != shape[i]",
-             bounds is None and any(shape[d] != shape[i] for i, d in enumerate(dims)), VALUE),
+             bounds is None and any(shape[d] != shape[i] for i, d in enumerate(dims)), STEP),
             ("list of two modes", len(dims) > 1)]
 
 
@@ -288,8 +299,9 @@ def run_partial(ctx, case, J):
     for d in dims:
         ctx.count("partial:on " + t.kinds()[d])
     floor = 1e-4 * amp * float(np.max(absdense(t)))
-    J.check("partial", "partial(t %s, %s)" % (list(t.shape), _descr(case)), lambda: _partial_call(t.to_tn(), case), tensor_verify(exp, floor),
-            _partial_feats(t, dims, case["bounds"]))
+    exp_src = partial_expected(x, dims, case["order"], case["bounds"], case["periodic"], "source")[0]
+    J.check("partial", "partial(t %s, %s)" % (list(t.shape), _descr(case)), lambda: _partial_call(t.to_tn(), case),
+            tensor_verify(exp, floor, exp_src), _partial_feats(t, dims, case["bounds"]))
 
 
 def run_linear(ctx, case, J):
@@ -350,8 +362,10 @@ def run_affine(ctx, case, J):
     floor = 1e-4 * amp * float(np.max(absdense(t)))
     kw = {} if b is None else {"bounds": b}
 
+    exp_src = partial_expected(x, [d], order, b, False, "source")[0]
+
     def verify(r):
-        m = tensor_verify(exp, floor)(r)
+        m = tensor_verify(exp, floor, exp_src)(r)
         g = to_np(r) if isinstance(r, tn.Tensor) else None
         if g is not None and g.shape == x.shape:
             m2 = cmp(g, np.broadcast_to(np.take(g, [0], axis=d), g.shape), 1e-9, floor)
@@ -362,7 +376,7 @@ def run_affine(ctx, case, J):
         return m
 
     feats = [("a differentiated mode is a CP core without Tucker factor", bare_cp(t, [d]), RAISE),
-             ("default bounds and a mode d at position i of the dim list with shape[d] != shape[i]", b is None and t.shape[d] != t.shape[0], VALUE)]
+             ("default bounds and a mode d at position i of the dim list with shape[d] != shape[i]", b is None and t.shape[d] != t.shape[0], STEP)]
     J.check("partial", "partial(t %s affine along %d, dim=%d, order=%d, bounds=%s)" % (list(t.shape), d, d, order, b),
             lambda: tn.partial(t.to_tn(), d, order=order, **kw), verify, feats)
 
@@ -374,6 +388,11 @@ def _per_mode_bounds(bounds, N, shape):
     if not isinstance(bounds[0], list):
         return [bounds] * N
     return bounds
+
+
+def _src_bounds(bounds, N, shape):
+    """what the source does for divergence/curl/laplacian with default bounds: every mode takes mode 0's extent"""
+    return [[0, shape[0]] for _ in range(N)] if bounds is None else _per_mode_bounds(bounds, N, shape)
 
 
 def run_gradient(ctx, case, J):
@@ -401,7 +420,7 @@ def run_gradient(ctx, case, J):
         for i in range(len(dims)):
             m = tensor_verify(exps[i], floors[i])(r[i])
             if m is not None:
-                return ("shape: " if m.startswith("shape") else "") + "component %d (mode %d): %s" % (i, dims[i], m)
+                return _kinded(m, "component %d (mode %d): " % (i, dims[i]))
         return None
 
     feats = [("dim given as an int", form == "int"), ("a differentiated mode is a CP core without Tucker factor", bare_cp(t, dims), RAISE),
@@ -412,7 +431,7 @@ def run_gradient(ctx, case, J):
 
 def _field_feats(ts, bounds, modes):
     return [("a differentiated mode is a CP core without Tucker factor", any(bare_cp(t, [d]) for t, d in modes), RAISE),
-            ("default bounds and modes of different sizes", bounds is None and len(set(ts[0].shape)) > 1, VALUE),
+            ("default bounds and modes of different sizes", bounds is None and len(set(ts[0].shape)) > 1, STEP),
             ("1 mode", ts[0].N == 1)]
 
 
@@ -427,8 +446,10 @@ def run_divergence(ctx, case, J):
     exp = sum(stencil(xs[n], n, 1, step_of(bl[n], xs[n].shape[n]), False) for n in range(N))
     floor = 1e-4 * sum((2 / abs(step_of(bl[n], xs[n].shape[n]))) * float(np.max(absdense(ts[n]))) for n in range(N))
     kw = {} if bounds is None else {"bounds": bounds}
+    bs = _src_bounds(bounds, N, xs[0].shape)
+    exp_src = sum(stencil(xs[n], n, 1, step_of(bs[n], xs[n].shape[n]), False) for n in range(N))
     J.check("divergence", "divergence(%d fields %s, bounds=%s)" % (N, list(ts[0].shape), bounds), lambda: tn.divergence([t.to_tn() for t in ts], **kw),
-            tensor_verify(exp, floor), _field_feats(ts, bounds, [(ts[n], n) for n in range(N)]))
+            tensor_verify(exp, floor, exp_src), _field_feats(ts, bounds, [(ts[n], n) for n in range(N)]))
 
 
 def run_curl(ctx, case, J):
@@ -439,10 +460,12 @@ def run_curl(ctx, case, J):
     ctx.case(("curl", tuple(t.sig() for t in ts), repr(bounds)), True, {"op": "curl", "field": [t.describe() for t in ts], "bounds": bounds})
     count_formats(ctx, *ts); ctx.count("curl:bounds=" + ("default" if bounds is None else ("pair" if not isinstance(bounds[0], list) else "per-mode")))
 
-    def D(i, n):
-        return stencil(xs[i], n, 1, step_of(bl[n], xs[i].shape[n]), False)
+    def D(i, n, b=bl):
+        return stencil(xs[i], n, 1, step_of(b[n], xs[i].shape[n]), False)
 
     exps = [D(2, 1) - D(1, 2), D(0, 2) - D(2, 0), D(1, 0) - D(0, 1)]
+    bs = _src_bounds(bounds, 3, xs[0].shape)
+    exps_src = [D(2, 1, bs) - D(1, 2, bs), D(0, 2, bs) - D(2, 0, bs), D(1, 0, bs) - D(0, 1, bs)]
     sc = max(float(np.max(absdense(t))) for t in ts)
     floor = 1e-4 * 2 * max(2 / abs(step_of(bl[n], xs[0].shape[n])) for n in range(3)) * sc
     kw = {} if bounds is None else {"bounds": bounds}
@@ -451,9 +474,9 @@ def run_curl(ctx, case, J):
         if not isinstance(r, (list, tuple)) or len(r) != 3:
             return "shape: expected 3 tensors"
         for i in range(3):
-            m = tensor_verify(exps[i], floor)(r[i])
+            m = tensor_verify(exps[i], floor, exps_src[i])(r[i])
             if m is not None:
-                return ("shape: " if m.startswith("shape") else "") + "component %d: %s" % (i, m)
+                return _kinded(m, "component %d: " % i)
         return None
 
     modes = [(ts[2], 1), (ts[1], 2), (ts[0], 2), (ts[2], 0), (ts[1], 0), (ts[0], 1)]
@@ -472,7 +495,9 @@ def run_laplacian(ctx, case, J):
     exp = sum(stencil(x, n, 2, step_of(bl[n], x.shape[n]), False) for n in range(N))
     floor = 1e-4 * sum((2 / abs(step_of(bl[n], x.shape[n]))) ** 2 for n in range(N)) * float(np.max(absdense(t)))
     kw = {} if bounds is None else {"bounds": bounds}
-    J.check("laplacian", "laplacian(t %s, bounds=%s)" % (list(t.shape), bounds), lambda: tn.laplacian(t.to_tn(), **kw), tensor_verify(exp, floor),
+    bs = _src_bounds(bounds, N, x.shape)
+    exp_src = sum(stencil(x, n, 2, step_of(bs[n], x.shape[n]), False) for n in range(N))
+    J.check("laplacian", "laplacian(t %s, bounds=%s)" % (list(t.shape), bounds), lambda: tn.laplacian(t.to_tn(), **kw), tensor_verify(exp, floor, exp_src),
             _field_feats([t], bounds, [(t, n) for n in range(N)]))
 
 
